@@ -261,8 +261,43 @@ theorem importedDepFiles_mem {files : FileTable} {deps : List Name} {acc l : Lis
         · cases hd with
           | head => exact Or.inl (Or.inr (by simpa [hfs] using hf))
           | tail _ hd => exact Or.inr ⟨d, hd, hf⟩
-    · cases h
+    · -- a dep without an entry in the table is skipped: it contributes `(none).getD [] = []`
+      rename_i hnone
+      rw [ih h]
+      constructor
+      · rintro (h' | ⟨d, hd, hf⟩)
+        · exact Or.inl h'
+        · exact Or.inr ⟨d, List.mem_cons_of_mem _ hd, hf⟩
+      · rintro (h' | ⟨d, hd, hf⟩)
+        · exact Or.inl h'
+        · cases hd with
+          | head => rw [hnone] at hf; cases hf
+          | tail _ hd => exact Or.inr ⟨d, hd, hf⟩
 
+/-- the loop over the build deps can no longer fail (a dep without registered files is skipped;
+    it used to be a panic, the former finding C19-F1) -/
+theorem importedDepFiles_total (files : FileTable) (deps : List Name) (acc : List String) :
+    ∃ l, importedDepFiles files deps acc = .ok l := by
+  induction deps generalizing acc with
+  | nil => exact ⟨acc, rfl⟩
+  | cons x xs ih =>
+    unfold importedDepFiles
+    split
+    · exact ih _
+    · exact ih _
+
+theorem importedOf_total (files : FileTable) (deps : Option (List Name)) :
+    ∃ i, importedOf files deps = .ok i := by
+  unfold importedOf
+  split
+  · exact ⟨none, rfl⟩
+  · rename_i l
+    obtain ⟨out, hout⟩ := importedDepFiles_total files l []
+    exact ⟨some out, by rw [hout]; rfl⟩
+
+/-- `acc ⊆ l`; every file of every dep that has an entry in the table is in `l` (a dep without an
+    entry has `(files.get? d).getD [] = []`, see `importedDepFiles_spec'` for the explicit form);
+    every element of `l` comes from `acc` or from some dep's files -/
 theorem importedDepFiles_spec {files : FileTable} {deps : List Name} {acc l : List String}
     (h : importedDepFiles files deps acc = .ok l) :
     acc ⊆ l ∧ (∀ d ∈ deps, ∀ f ∈ (files.get? d).getD [], f ∈ l) ∧
@@ -271,7 +306,25 @@ theorem importedDepFiles_spec {files : FileTable} {deps : List Name} {acc l : Li
    fun d hd f hf => (importedDepFiles_mem h f).2 (Or.inr ⟨d, hd, hf⟩),
    fun f hf => (importedDepFiles_mem h f).1 hf⟩
 
+/-- the same with the table entries explicit -/
+theorem importedDepFiles_spec' {files : FileTable} {deps : List Name} {acc l : List String}
+    (h : importedDepFiles files deps acc = .ok l) :
+    acc ⊆ l ∧ (∀ d ∈ deps, ∀ fs, files.get? d = some fs → fs ⊆ l) ∧
+      ∀ f ∈ l, f ∈ acc ∨ ∃ d ∈ deps, ∃ fs, files.get? d = some fs ∧ f ∈ fs := by
+  obtain ⟨h1, h2, h3⟩ := importedDepFiles_spec h
+  refine ⟨h1, fun d hd fs hfs f hf => h2 d hd f (by rw [hfs]; exact hf), fun f hf => ?_⟩
+  rcases h3 f hf with h' | ⟨d, hd, hf'⟩
+  · exact Or.inl h'
+  · cases hg : files.get? d with
+    | none => rw [hg] at hf'; cases hf'
+    | some fs => rw [hg] at hf'; exact Or.inr ⟨d, hd, fs, hg, hf'⟩
+
 example : importedDepFiles [("d", ["t1", "t2"]), ("g", ["t2", "o"])] ["g", "d"] [] = .ok ["t2", "o", "t1"] := by
+  decide
+
+/-- a dep without an entry ("plain") is skipped -/
+example : importedDepFiles [("d", ["t1", "t2"]), ("g", ["t2", "o"])] ["g", "plain", "d"] ["a"] =
+    .ok ["a", "t2", "o", "t1"] := by
   decide
 
 /-- the optional version used by `moduleStmts` -/
@@ -1845,25 +1898,33 @@ theorem download_with_srcdir_mismatch {y context isBinary filename defaults buil
       == ["elsewhere/.laze-downloaded"]
   | .error _ => false
 
-/-! ### FINDING (C19-F1): a build dep that registers no files makes its dependents panic
+/-! ### (former FINDING C19-F1, fixed) a build dep that registers no files
 
 A module marked `is_build_dep: true` (or `is_global_build_dep`) that has neither `build_dep_files`
 nor a `build:` section nor a `download:` never gets an entry in `module_build_dep_files`; the lookup
-`module_build_dep_files.get(&dep.name).unwrap()` of every dependent then panics. -/
+`module_build_dep_files.get(&dep.name).unwrap()` of every dependent used to panic
+(`importedDepFiles_missing`, `moduleStmts_panics_on_missing_files`).  Such a dep is now skipped:
+`importedDepFiles_total` (§3) — the loop cannot fail — and below. -/
 
-theorem importedDepFiles_missing {files : FileTable} {deps : List Name} {d : Name} (hd : d ∈ deps)
-    (hnone : files.get? d = none) (acc : List String) :
-    importedDepFiles files deps acc = .error (.panic "generate.rs:imported build deps: no files for build dep") := by
+/-- deps without an entry in the file table contribute nothing: they can be filtered out first -/
+theorem importedDepFiles_skip (files : FileTable) (deps : List Name) (acc : List String) :
+    importedDepFiles files deps acc =
+      importedDepFiles files (deps.filter (fun d => (files.get? d).isSome)) acc := by
   induction deps generalizing acc with
-  | nil => cases hd
+  | nil => rfl
   | cons x xs ih =>
-    unfold importedDepFiles
-    cases hd with
-    | head => rw [hnone]
-    | tail _ hd =>
-      split
-      · exact ih hd _
-      · rfl
+    cases hx : files.get? x with
+    | none =>
+      rw [List.filter_cons_of_neg (by simp [hx])]
+      conv => lhs; unfold importedDepFiles
+      rw [hx]
+      exact ih acc
+    | some fs =>
+      rw [List.filter_cons_of_pos (by simp [hx])]
+      conv => lhs; unfold importedDepFiles
+      conv => rhs; unfold importedDepFiles
+      rw [hx]
+      exact ih _
 
 /-- a default-build module without own build-dep files registers nothing … -/
 theorem moduleStmts_registers_nothing {ev st builder app r rules globals m bdeps srcdir flat} {ls ls' : LoopState}
@@ -1879,34 +1940,31 @@ theorem moduleStmts_registers_nothing {ev st builder app r rules globals m bdeps
   rw [hl]
   exact (downloadStep_files hlt).1
 
-/-- … and a module having an (effective) build dep without registered files panics -/
-theorem moduleStmts_panics_on_missing_files {ev st builder app r rules globals m bdeps srcdir flat}
-    {ls : LoopState} {d : Name}
-    (hd : d ∈ (effBuildDeps globals m bdeps).getD []) (hnone : ls.files.get? d = none) :
-    (∃ e, downloadStep ev m srcdir rules flat ls = .error e) ∨
-    moduleStmts ev st builder app r rules globals m bdeps srcdir flat ls =
-      .error (.panic "generate.rs:imported build deps: no files for build dep") := by
-  cases hdl : downloadStep ev m srcdir rules flat ls with
-  | error e => exact Or.inl ⟨e, rfl⟩
-  | ok lt =>
-    right
-    unfold moduleStmts
-    rw [hdl]
-    dsimp only
-    have hfiles := (downloadStep_files hdl).1
-    cases he : effBuildDeps globals m bdeps with
-    | none => rw [he] at hd; cases hd
-    | some l =>
-      rw [he] at hd
-      have hnone' : lt.1.files.get? d = none := by rw [hfiles]; exact hnone
-      have hd' : d ∈ l := hd
-      unfold importedOf
-      dsimp only
-      rw [importedDepFiles_missing hd' hnone']
-      rfl
+/-- … and a module having an (effective) build dep without registered files no longer fails
+    there: `moduleStmts` can only fail in its download step or its build step -/
+theorem moduleStmts_error_cases {ev st builder app r rules globals m bdeps srcdir flat}
+    {ls : LoopState} {e : GErr}
+    (h : moduleStmts ev st builder app r rules globals m bdeps srcdir flat ls = .error e) :
+    downloadStep ev m srcdir rules flat ls = .error e ∨
+    ∃ lt imported, downloadStep ev m srcdir rules flat ls = .ok lt ∧
+      importedOf lt.1.files (effBuildDeps globals m bdeps) = .ok imported ∧
+      buildStep ev st builder app.name rules flat m srcdir (effSources r m)
+        (combinedDeps imported m.buildDepFiles) lt.2 (registerLocalDeps m lt.1) = .error e := by
+  unfold moduleStmts at h
+  split at h
+  · rename_i e' hdl
+    cases h
+    exact Or.inl hdl
+  · rename_i lt hlt
+    split at h
+    · rename_i e' himp
+      obtain ⟨i, hi⟩ := importedOf_total lt.1.files (effBuildDeps globals m bdeps)
+      rw [hi] at himp
+      cases himp
+    · rename_i imported himp
+      exact Or.inr ⟨lt, imported, hlt, himp, h⟩
 
-example : importedOf [] (some ["plain-build-dep"]) =
-    .error (.panic "generate.rs:imported build deps: no files for build dep") := by decide
+example : importedOf [] (some ["plain-build-dep"]) = .ok (some []) := by decide
 
 /-! ## 10. from `moduleEnvs` to the main theorems, and a concrete scenario -/
 
